@@ -258,7 +258,19 @@ fn wrap(mut p: P, it: &J) -> P {
     }
     let gh = s(it, "group_help");
     if !gh.is_empty() && s(it, "arity") != "fallback_group" {
-        p = p.group_help(leak(&dstr(gh))).boxed();
+        if b(it, "via_with_group_help") {
+            // the same header through the closure-taking entry point
+            let text: &'static str = leak(&dstr(gh));
+            p = p
+                .with_group_help(move |_meta| {
+                    let mut d = bpaf::Doc::default();
+                    d.text(text);
+                    d
+                })
+                .boxed();
+        } else {
+            p = p.group_help(leak(&dstr(gh))).boxed();
+        }
     }
     if b(it, "hide_usage") {
         p = p.hide_usage().boxed();
@@ -542,6 +554,7 @@ pub fn build_node(it: &J) -> P {
             let a = if h.is_empty() { a } else { a.help(leak(&dstr(h))) };
             a.map(os_val).boxed()
         }
+        "pure" if b(it, "via_pure_with") => pure_with(|| Ok::<Val, String>(Val::Unit)).boxed(),
         "pure" => pure(Val::Unit).boxed(),
         "fail" => fail::<Val>(leak("FAILMSG")).boxed(),
         other => panic!("unknown node kind {:?}", other),
@@ -659,6 +672,11 @@ pub fn build_options(level: &J) -> OptionParser<Val> {
                 0 => op.descr(v),
                 1 => op.header(v),
                 2 => op.footer(v),
+                _ if b(level, "via_with_usage") => op.with_usage(move |_| {
+                    let mut d = bpaf::Doc::default();
+                    d.text(v);
+                    d
+                }),
                 _ => op.usage(v),
             };
         }
